@@ -171,7 +171,8 @@ def asan(ctx, subs):
         for b in small:
             for fn in FN2.values():
                 for view in (None, "backwards", "stride2"):
-                    lines.append(json.dumps([fn, a, b, view]))
+                    if view is None or (len(a) <= 2 and len(b) <= 2) or (len(a) + len(b)) % 5 == 0:
+                        lines.append(json.dumps([fn, a, b, view]))
     env = dict(os.environ, LD_PRELOAD=lib, ASAN_OPTIONS="detect_leaks=0:halt_on_error=1")
     try:
         p = subprocess.run([core.PY, "-c", ASAN_SCRIPT, so], input="\n".join(lines) + "\n", capture_output=True,
